@@ -170,7 +170,7 @@ def _param_names(node):
     return [p.arg for p in a.posonlyargs + a.args] + [p.arg for p in a.kwonlyargs]
 
 
-def prove_contract(session, c, max_paths=4000, time_budget=None):
+def prove_contract(session, c, max_paths=4000, time_budget=None, known=()):
     """Generate and discharge every obligation of contract c against the body
     extracted from the current tree.  Results go into `session`."""
     qn = c.qualname
@@ -240,6 +240,16 @@ def prove_contract(session, c, max_paths=4000, time_budget=None):
                 if isinstance(cur, SSeq) and len(cur.chunks) == 1 and cur.chunks[0][0] == 's':
                     o.fields[node.left.attr] = I.eval(node.comparators[0], e2)
         session.cover(key + "/cover.pre")
+        # listed known findings: split the input space by the finding's witness, so that a
+        # failure of the same obligation *outside* the witness is still reported
+        for (obl, witness, fid) in known:
+            if witness:
+                w = I.truth(I.eval_spec(witness, spec_locals, ex.module.__dict__, None, ex.cls))
+                inside = w if isinstance(w, bool) else path.branch(w)
+            else:
+                inside = True
+            if inside:
+                path.known_region.append((obl, fid))
         old = I.snapshot_old(all_srcs, spec_locals, ex.module.__dict__, ex.cls)
         when_vals = []
         for (exc, when, ens, rname) in c.raises_:
